@@ -2,6 +2,7 @@ import Driver.Util
 import Driver.C05
 import Driver.Kernel
 import Driver.C04
+import Driver.C07
 import Driver.C11
 import Driver.C18
 import Driver.C16
@@ -19,6 +20,7 @@ def dispatch (op : String) (j : Json) : Except String Json :=
   if op.startsWith "c05." then C05.handle op j
   else if op.startsWith "kernel." then Kernel.handle op j
   else if op.startsWith "c04." then C04.handle op j
+  else if op.startsWith "c07." then C07.handle op j
   else if op.startsWith "c11." then C11.handle op j
   else if op.startsWith "c18." then C18.handle op j
   else if op.startsWith "c16." then C16.handle op j
